@@ -143,6 +143,17 @@ Definition st_flush_internal (s : store) : store :=
 Definition st_flush (s : store) : store * Z :=
   if s_closed s then (s, E_CLOSED) else (st_flush_internal s, 0).
 
+(** A Flush whose first file creation fails (the segment identifier has been drawn, nothing was
+    written, the memtable stays queued): the error is returned and nothing is acknowledged *)
+Definition E_IO := 14.
+Definition st_flush_fail (s : store) : store * Z :=
+  if s_closed s then (s, E_CLOSED) else
+  match s_queue s with
+  | [] | [_] => (s, 0)
+  | _ => ({| s_T := s_T s; s_queue := s_queue s; s_segs := s_segs s; s_counter := s_counter s + 1;
+             s_limit := s_limit s; s_cthr := s_cthr s; s_closed := s_closed s |}, E_IO)
+  end.
+
 (** Close: the flush worker flushes the frozen memtables one last time *)
 Definition st_close (s : store) : store * Z :=
   if s_closed s then (s, E_CLOSED) else
